@@ -1,14 +1,14 @@
 package main
 
 import (
-	"encoding/base64"
-	"encoding/json"
 	"bytes"
 	"crypto/ecdsa"
 	"crypto/ed25519"
 	"crypto/elliptic"
 	"crypto/rand"
 	"crypto/x509"
+	"encoding/base64"
+	"encoding/json"
 	"encoding/pem"
 	"fmt"
 	"net/url"
@@ -399,8 +399,13 @@ func opCliChain(a []Sx) Sx {
 		}
 		signed := filepath.Join(d, "signed.wbn")
 		prefill(signed)
-		if se, err := runTool(env, nil, "sign-bundle", "signatures-section", "-i", wbn, "-o", signed, "-certificate", certCbor,
-			"-privateKey", keyPath, "-miRecordSize", fmt.Sprint(a[4].Int())); err != nil {
+		sargs := []string{"signatures-section", "-i", wbn, "-o", signed, "-certificate", certCbor,
+			"-privateKey", keyPath, "-miRecordSize", fmt.Sprint(a[4].Int())}
+		if len(a) > 6 && a[6].Int() > 0 { // -date: one minute ago, written in UTC or with a zone offset
+			zone := []*time.Location{time.UTC, time.FixedZone("", 9*3600), time.FixedZone("", -(5*3600 + 1800))}[(a[6].Int()-1)%3]
+			sargs = append(sargs, "-date", time.Now().Add(-time.Minute).In(zone).Format(time.RFC3339))
+		}
+		if se, err := runTool(env, nil, "sign-bundle", sargs...); err != nil {
 			return fail("sign-bundle signatures-section rejects gen-bundle output", se)
 		}
 		var do bytes.Buffer
@@ -493,13 +498,14 @@ func genC20(r *Rng, tier string) []Case {
 		if i%4 == 0 {
 			// sign the same kind of tree with both sub-commands
 			simple := []Sx{L(B([]byte("")), Zi(1), B(nil)), L(B([]byte("index.html")), Zi(0), B([]byte("<html>hi</html>"))), L(B([]byte("a b#c.txt")), Zi(0), B(r.Bytes(100))), L(B([]byte("sub")), Zi(1), B(nil)), L(B([]byte("sub/x?.js")), Zi(0), B(r.Bytes(5000)))}
-			cs = append(cs, Case{"cli_chain", []Sx{Sym("signbundle"), Sym(ver), L(simple...), Sym([]string{"sec1", "pkcs8", "encrypted"}[r.Intn(3)]), Zi(int64([]int{1, 16, 4096, 16384}[r.Intn(4)])), Zi(int64(r.Intn(2)))}})
+			cs = append(cs, Case{"cli_chain", []Sx{Sym("signbundle"), Sym(ver), L(simple...), Sym([]string{"sec1", "pkcs8", "encrypted"}[r.Intn(3)]), Zi(int64([]int{1, 16, 4096, 16384}[r.Intn(4)])), Zi(int64(r.Intn(2))), Zi(int64(r.Intn(4)))}})
 		}
 	}
 	// a b1 bundle with a manifest section, signed and dumped
 	{
 		simple := []Sx{L(B([]byte("")), Zi(1), B(nil)), L(B([]byte("index.html")), Zi(0), B([]byte("<html>hi</html>"))), L(B([]byte("manifest.json")), Zi(0), B([]byte("{}")))}
-		cs = append(cs, Case{"cli_chain", []Sx{Sym("signbundle"), Sym("b1"), L(simple...), Sym("sec1"), Zi(16), Zi(1)}})
+		cs = append(cs, Case{"cli_chain", []Sx{Sym("signbundle"), Sym("b1"), L(simple...), Sym("sec1"), Zi(16), Zi(1), Zi(2)}})
+		cs = append(cs, Case{"cli_chain", []Sx{Sym("signbundle"), Sym("b2"), L(simple...), Sym("pkcs8"), Zi(16), Zi(0), Zi(3)}})
 	}
 	// inputs sign-bundle must refuse rather than emit a bundle that does not verify
 	for i, k := range []string{"keymismatch", "keymismatch", "rs0", "rsneg", "rs16385", "emptydigest"} {
